@@ -52,8 +52,8 @@ impl Property for C39 {
 
     fn runs(&self, tier: Tier) -> u64 {
         match tier {
-            Tier::Quick => 11 * 8,
-            Tier::Thorough => 11 * 200,
+            Tier::Quick => 11 * 60,
+            Tier::Thorough => 11 * 3000,
         }
     }
 
